@@ -577,9 +577,11 @@ class BackendZ3(Backend):
         z3_sort = z3.Z3_get_sort(ctx, ast)
 
         if decl_num not in z3_op_nums:
-            raise ClaripyError(f"unknown decl kind {decl_num}")
+            raise BackendError(f"unknown decl kind {decl_num}")
         if op_map.get(z3_op_nums[decl_num]) is None:
-            raise ClaripyError(f"unknown decl op {z3_op_nums[decl_num]}")
+            # an operator with no claripy counterpart (e.g. the sequence operators): decline, so that
+            # claripy.simplify() keeps the expression instead of failing
+            raise BackendError(f"unknown decl op {z3_op_nums[decl_num]}")
         op_name = op_map[z3_op_nums[decl_num]]
 
         num_args = z3.Z3_get_app_num_args(ctx, ast)
@@ -1471,11 +1473,11 @@ op_map = {
     "Z3_OP_FPA_DIV": "fpDiv",
     "Z3_OP_FPA_EQ": "fpEQ",
     "Z3_OP_FPA_FMA": None,
-    "Z3_OP_FPA_FP": None,
+    "Z3_OP_FPA_FP": "fpFP",
     "Z3_OP_FPA_GE": "fpGEQ",
     "Z3_OP_FPA_GT": "fpGT",
-    "Z3_OP_FPA_IS_INF": None,
-    "Z3_OP_FPA_IS_NAN": None,
+    "Z3_OP_FPA_IS_INF": "fpIsInf",
+    "Z3_OP_FPA_IS_NAN": "fpIsNaN",
     "Z3_OP_FPA_IS_NEGATIVE": None,
     "Z3_OP_FPA_IS_NORMAL": None,
     "Z3_OP_FPA_IS_POSITIVE": None,
@@ -1749,11 +1751,11 @@ op_type_map = {
     "Z3_OP_FPA_DIV": FP,
     "Z3_OP_FPA_EQ": Bool,
     "Z3_OP_FPA_FMA": None,
-    "Z3_OP_FPA_FP": None,
+    "Z3_OP_FPA_FP": FP,
     "Z3_OP_FPA_GE": Bool,
     "Z3_OP_FPA_GT": Bool,
-    "Z3_OP_FPA_IS_INF": None,
-    "Z3_OP_FPA_IS_NAN": None,
+    "Z3_OP_FPA_IS_INF": Bool,
+    "Z3_OP_FPA_IS_NAN": Bool,
     "Z3_OP_FPA_IS_NEGATIVE": None,
     "Z3_OP_FPA_IS_NORMAL": None,
     "Z3_OP_FPA_IS_POSITIVE": None,
